@@ -73,6 +73,9 @@ POLICIES = [  # (cfg, amount): varied policies (C12: the failure carries exactly
     (CFG_A, 10), (CFG_A, 10), (CFG_B, 1000), (CFG_C, 100),
     ({"base": 1000, "ppm": 5000, "pdelta": 1008, "sdelta": 34, "mpp": 2, "h0": 800000}, 100000),
     ({"base": 65539, "ppm": 1000000, "pdelta": 144, "sdelta": 40, "mpp": 1, "h0": 500}, 7),
+    # no fee at all / a proportional fee that rounds down to nothing: the budget handed to pay is exactly 0
+    ({"base": 0, "ppm": 0, "pdelta": 40, "sdelta": 10, "mpp": 2, "h0": 100}, 10),
+    ({"base": 0, "ppm": 5000, "pdelta": 40, "sdelta": 10, "mpp": 2, "h0": 100}, 150),
 ]
 
 def rand_scenario(rng, family, policies=False):
@@ -239,7 +242,9 @@ def class_jobs(seed, tier, start_run=1):
             else:
                 keep.append(c)
         cases = keep
-    extras = [[], [(10, "aabb")], [(18, ""), (65537, "01")], [(1, "00"), (12, "ff" * 3), (4294967297, "05")]]
+    # (other records around the metadata; the last record of a payload may have an empty value)
+    extras = [[], [(10, "aabb")], [(18, ""), (65537, "01")], [(1, "00"), (12, "ff" * 3), (4294967297, "05")],
+              [(18, "")], [(10, "aabb"), (65, "")], [(7, ""), (4294967297, "")]]
     for sh, h in cases:
         cfg = dict(CFG_A); cfg["selfhints"] = sh
         h = dict(h); h["extra"] = rng.choice(extras)
